@@ -74,6 +74,14 @@ CHECKS = {
    "implementation-shaped TLA+ model of the cron run loop (CronSched: sorted entries, one timer, select over timer/add/snapshot/stop/remove, rendezvous channels, job WaitGroup, FakeClock timer semantics) checked exhaustively by TLC against the CronContract monitor incl. liveness; the real Cron (fake clock, harness schedules that record every Next argument and its zone, real specs under WithLocation) driven by the gated scheduler in sequential and racing histories plus ungated Stop-vs-wake rounds; every trace judged by TLC against the contract",
    "159k (quick) to 8.5M (thorough) model states; 706 (quick) to 11.5k (thorough) histories: every activation the clock reaches starts its job once, never early/twice, none lost after Add/Remove of other entries, nothing after Remove/Stop returned, Stop's context only after started jobs returned, Entries' next/prev are the instants actually used, Schedule.Next always handed the wake time in the cron's location",
    "trusted: TLC, k8s FakeClock (a timer armed with a non-positive duration needs a Step(0) nudge), quiescence by goroutine wait states; time in ticks of 30 min so that half-hour location offsets are whole ticks; Run() (blocking Start) not exercised", "DESIGN.md#c05"),
+ "C19": ("model_checking",
+   "implementation-shaped TLA+ model of SPIFFE (RWMutex with pending writer, readyCh, current SVID, Run/Ready/Get processes in every first-call order, rotation loop in seconds, issuer scripts) checked exhaustively by TLC against the SpiffeContract monitor incl. liveness; the real SPIFFE with a harness-owned issuer/CA, a real identity directory and a fake clock driven by the gated scheduler; every trace judged by TLC",
+   "392k (quick) to 11.1M (thorough) model states over validity windows x failure sequences x step sizes, all 24 first-call orders x 4 initial-fetch outcomes on the real code, 516 (quick) to 5.4k (thorough) runs / 1.2k+ issuer requests: calls return once the initial fetch finished, latest good SVID served (memory and files), renewal within 60 s of half-life (also when handed out past it), 10 s retry, fresh key per request, consistent published file set",
+   "trusted: TLC, k8s FakeClock (wrapped so After(d<=0) fires at once), the harness CA; 'SVID published after readiness' has no gate between close(readyCh) and the publication, so that class is caught only by timing (3 of 516 runs)", "DESIGN.md#c19"),
+ "C09": ("model_checking",
+   "implementation-shaped TLA+ model of the coalescing limiter (RWMutex, WaitGroup, token and signal sender goroutines, Run's program counter, fake timer) whose observable steps feed the CoalContract monitor (a nondeterministic machine tracked as the set of compatible states), checked exhaustively by TLC incl. liveness; the real limiter (fake ticker) driven by the gated scheduler over Add bursts, clock steps, prompt/slow consumers, Close and cancel; every trace judged by TLC",
+   "329k (quick) to ~21M (thorough) model states; 325 (quick) to ~5k (thorough) schedules incl. sequential timelines whose signal timeline is unique and compared exactly: first Add signalled at once, windows double up to MaxDelay, cap forces a signal, one signal per burst, signals <= Adds, no Add lost, Close returns only after all helpers finished and never deadlocks",
+   "trusted: TLC, k8s FakeClock, quiescence by goroutine wait states; exhaustive monitored configurations are bounded to <=3 Adds / time <=3 (the monitor's uncertainty set multiplies states), larger constants in simulation only", "DESIGN.md#c09"),
 }
 
 def hook_commits():
